@@ -172,7 +172,7 @@ fn main() {
     run.assume("the lenient reading of 'one unit' at a decade boundary: the larger of the unit of the true value and of the result");
 
     // S1 small-scope grid
-    let nmax: usize = tier.pick(3000, 30000);
+    let nmax: usize = tier.pick(3000, 300_000);
     let pmax: u64 = 8;
     run.bound("S1_unscaled", format!("2..={}", nmax));
     run.bound("S1_scales", "-3, 0, 2, 7");
@@ -280,6 +280,20 @@ fn main() {
         if i % 9 == 0 {
             check_one_over(&run, &s4[i], &mut t);
         }
+        t
+    });
+    // S4b: every operand length: the digit patterns (all nines, 10..0, 10..01, 49..9, 50..0, 50..01, 19..9, 9..98,
+    // filler) at every length, so that any relation between the length and a chunk size of a digit- or
+    // word-wise reduction of the divisor (19 digits per u64, 9 per u32, 64 bits, ...) is met
+    let lmax: usize = tier.pick(260, 700);
+    let all_lens: Vec<usize> = (1..=lmax).collect();
+    let s4b: Vec<Dec> = long_ints(&all_lens, run.seed()).into_iter().flat_map(|(_, n)| [Dec { n: n.clone(), s: 0 }, Dec { n, s: 17 }]).collect();
+    let s4bp: Vec<u64> = tier.pick(vec![2, 16, 100], vec![1, 2, 16, 38, 100, 101]);
+    run.bound("S4b_lengths", format!("1..={}", lmax));
+    run.bound("S4b_precisions", json!(s4bp));
+    run.par_opts("S4b patterns at every length", s4b.len(), 60, &|i| json!({"x": s4b[i].show()}), |i| {
+        let mut t = Tally::default();
+        sweep(&run, &s4b[i], &s4bp, &mut t);
         t
     });
     let _ = BigInt::zero();
